@@ -118,13 +118,15 @@ impl Drop for LiveNode {
 pub struct TcpClient {
     pub s: TcpStream,
     buf: Vec<u8>,
+    /// keep the white space at the end of a line (only the line feed is cut): values may end in spaces or tabs
+    pub keep_ws: bool,
 }
 
 impl TcpClient {
     pub fn connect(addr: &str) -> std::io::Result<TcpClient> {
         let s = TcpStream::connect(addr)?;
         s.set_nodelay(true).ok();
-        let mut c = TcpClient { s, buf: vec![] };
+        let mut c = TcpClient { s, buf: vec![], keep_ws: false };
         c.read_until("ok", Duration::from_secs(10));
         Ok(c)
     }
@@ -138,7 +140,8 @@ impl TcpClient {
         loop {
             while let Some(p) = self.buf.iter().position(|b| *b == b'\n') {
                 let l: Vec<u8> = self.buf.drain(..=p).collect();
-                let l = String::from_utf8_lossy(&l).trim_end().to_string();
+                let l = String::from_utf8_lossy(&l).to_string();
+                let l = if self.keep_ws { l.strip_suffix('\n').unwrap_or(&l).to_string() } else { l.trim_end().to_string() };
                 let hit = l.contains(needle);
                 lines.push(l);
                 if hit {
